@@ -58,7 +58,8 @@ def shard_filter(descs, shard, nshards, mode):
     exh = [d for d in descs if d[0] == 'exh']; api = [d for d in descs if d[0] == 'api']
     if mode == 'I':
         # interpreted kernels: no per-call JIT (the public functions re-compile a closure on every call), ~30x more API cases per second
-        return [d for i, d in enumerate(api) if i % 4 != 0 and (i // 4 * 3 + i % 4 - 1) % nshards == shard]
+        sel = [d for i, d in enumerate(api) if i % 10 != 0]
+        return [d for i, d in enumerate(sel) if i % nshards == shard]
     # compiled mode: exhaustive blocks of one metric stay on the same workers (each captured kernel costs a compile)
     mine = []
     half = max(1, nshards // 2)
@@ -66,7 +67,7 @@ def shard_filter(descs, shard, nshards, mode):
         group = 0 if d[1].split(',')[4] == 'EUCLIDEAN' else 1
         if nshards == 1 or (shard % 2 == group and (i // 2) % half == shard // 2):
             mine.append(d)
-    api_j = [d for i, d in enumerate(api) if i % 4 == 0]
+    api_j = [d for i, d in enumerate(api) if i % 10 == 0]       # each compiled API case costs three closure compiles
     mine += [d for i, d in enumerate(api_j) if i % nshards == shard]
     return mine
 
